@@ -908,19 +908,24 @@ package analysis
 //@   loop 1: invariant old(opts.flattenContext) != nil ==> opts.flattenContext == old(opts.flattenContext)
 
 // checkLocalRefs (C09, second sentence): success means that every local $ref of the index resolves in the document
-//@ fun localRefsOK(s *Spec) bool = forall k in dom(s.references.allRefs) :: s.references.allRefs[k].HasFragmentOnly ==> ptrOK(*s.references.allRefs[k].GetPointer(), box(s.spec))
+// isAbsent (reflection, outside the subset): a deterministic function of the value, true of typed nil pointers (trusted)
+//@ func isAbsent(target)
+//@   pure
+//@   assumed
+//@ fun localRefsOK(s *Spec) bool = forall k in dom(s.references.allRefs) :: s.references.allRefs[k].HasFragmentOnly ==> ptrOK(*s.references.allRefs[k].GetPointer(), box(s.spec)) && !isAbsent(ptrObj(*s.references.allRefs[k].GetPointer(), box(s.spec)))
 
 //@ func checkLocalRefs(opts)
 //@   requires opts != nil && opts.Spec != nil && opts.Spec.spec != nil
 //@   modifies nothing
 //@   ensures result == nil && !opts.ContinueOnError ==> localRefsOK(opts.Spec)
-//@   loop 1: invariant forall k in seen :: opts.Spec.references.allRefs[k].HasFragmentOnly ==> ptrOK(*opts.Spec.references.allRefs[k].GetPointer(), box(opts.Spec.spec))
+//@   loop 1: invariant forall k in seen :: opts.Spec.references.allRefs[k].HasFragmentOnly ==> ptrOK(*opts.Spec.references.allRefs[k].GetPointer(), box(opts.Spec.spec)) && !isAbsent(ptrObj(*opts.Spec.references.allRefs[k].GetPointer(), box(opts.Spec.spec)))
 
 // Flatten does not go past the import of references with a local $ref that does not resolve (unless ContinueOnError)
 //@ func Flatten(opts)
 //@   aspect refcheck
 //@   requires opts.Spec != nil && opts.Spec.spec != nil && strfmt.Default != nil
 //@   modifies heaps DOC, heaps INDEX, heaps FCTX
+//@   callsite expand: !callee_opts.ContinueOnError ==> localRefsOK(callee_opts.Spec)
 //@   callsite nameInlinedSchemas: !callee_opts.ContinueOnError ==> localRefsOK(callee_opts.Spec)
 //@   callsite stripPointersAndOAIGen: !callee_opts.ContinueOnError && (callee_opts.Minimal || callee_opts.Expand) ==> localRefsOK(callee_opts.Spec)
 
